@@ -7,6 +7,16 @@ HERE = os.path.dirname(os.path.abspath(__file__))
 
 # property -> (technique, level text, level note, design ref)
 CLAIMED = {
+    'C15': ('stale-after-yield typestate (dataflow over generator CFGs with in-node evaluation order) for locals holding AST '
+            'nodes; non-None proof (path-sensitive truthiness facts) for every value popped from the walk stack and every '
+            '.f/.a link before dereference; structural check that detaching marks the whole sub-tree dead',
+            'Static: decides the liveness discipline that makes walking robust against mutation by the consumer: nothing read '
+            'from the tree before a yield is used after it without being re-read through the yielded node, dead or None stack '
+            'entries are skipped before use, detached sub-trees are completely marked dead (grammar-aware list filter). '
+            'Termination, no-duplicates and "new children are walked next" for all interleavings need state exploration and '
+            'are not decided.',
+            'Trusts that AST-holding locals are those bound from `<x>.a`, a parameter named `ast`, or attribute chains of these.',
+            'DESIGN.md §2 C15'),
     'C10': ('dominance of every target mutation in fst_raw.py by the parse of the complete new text (CFG must-pass-through); '
             'validate-then-mutate analysis (as C12) with parser entry points as rejecting calls and return-value-correlated '
             'callee effects; lock / attachment-point checks of the raw entry points',
@@ -117,7 +127,7 @@ NOT_APPLICABLE = {
            'conservation is value-level. Its two structural clauses are checked as R5.1 and R7.3.',
 }
 
-PLANNED = ['C01', 'C02', 'C04', 'C05', 'C06', 'C11', 'C15']
+PLANNED = ['C01', 'C02', 'C04', 'C05', 'C06', 'C11']
 
 
 def main():
